@@ -878,6 +878,8 @@ class RealEqMacro(Macro):
     def eval(self, goal, prevs=None):
         if len(goal.get_vars()) != 0:
             raise ConvException
+        if not ((goal.is_equals() or goal.is_compares()) and goal.arg1.get_type() == RealType):
+            raise ConvException
         try:
             if goal.is_equals():
                 if real_eval(goal.lhs) == real_eval(goal.rhs):
